@@ -108,6 +108,15 @@ def h8(*parts):
     return m.digest()
 
 
+def _die_with_parent():
+    """workers must not outlive a killed parent (they would keep pipes open and burn CPU)"""
+    try:
+        import ctypes, signal
+        ctypes.CDLL("libc.so.6", use_errno=True).prctl(1, signal.SIGKILL)   # PR_SET_PDEATHSIG
+    except Exception:
+        pass
+
+
 def _call(args):
     fn, task = args
     return fn(task)
@@ -121,7 +130,7 @@ def pmap(fn, tasks, procs=None):
     if procs <= 1 or os.environ.get("VERIF_SERIAL"):
         return [fn(t) for t in tasks]
     ctx = multiprocessing.get_context("fork")
-    with ctx.Pool(procs) as pool:
+    with ctx.Pool(procs, initializer=_die_with_parent) as pool:
         return pool.map(_call, [(fn, t) for t in tasks], chunksize=1)
 
 
